@@ -462,7 +462,8 @@ def encode(b, init_events):
     # release sequences rs[a][w]: w reachable from a through (rf; rmw)* on the same location
     rs = {(a, a): BoolVal(True) for a in Wr}
     nrmw = sum(1 for e in evs if e.kind in ("U", "CAS"))
-    for _ in range(min(nrmw, 4)):
+    # a release sequence can run through every RMW of the program: iterate to the fixed point (bounded by their number)
+    for _ in range(nrmw):
         new = dict(rs)
         for a in Wr:
             for w in Wr:
